@@ -336,7 +336,9 @@ def units_for(prop, tier):
         us.append({"runner": "tramp", "prop": prop, "id": "reactivex/scheduler/trampoline.py::Trampoline"})
     if "opacity" in fams:
         us.append({"runner": "opacity", "prop": prop, "id": f"opacity-conditions/{prop}"})
-    if "guard" in fams:
+    if "guard" in fams or (prop in CALLEE_USERS and prop != "C25"):
+        # (every operator proof says "a user function that raises ends the sequence with that error": that its handlers let no user exception
+        # escape into whoever emitted the notification is the guard condition, checked over the operator files inside each operator property)
         us.append({"runner": "guard", "prop": prop, "id": f"guard-conditions/{prop}"})
     if prop in ("C05", "C08"):
         # the indexed forms that are compositions (map_indexed, skip_while_indexed, starmap_indexed, pluck_attr) and the stage that attaches the index
